@@ -14,6 +14,35 @@ fn hash64(s: &[u8], mut h: u64) -> u64 {
 }
 const H0: u64 = 0xcbf29ce484222325;
 
+/// a panic inside the library is a RESULT of that configuration (compared like any other), not a crash of the battery
+fn guard<T>(f: impl FnOnce() -> T) -> Result<T, String> {
+    std::panic::catch_unwind(std::panic::AssertUnwindSafe(f)).map_err(|p| {
+        let m = if let Some(s) = p.downcast_ref::<&str>() {
+            s.to_string()
+        } else if let Some(s) = p.downcast_ref::<String>() {
+            s.clone()
+        } else {
+            "?".to_string()
+        };
+        format!("PANIC {}", m.lines().next().unwrap_or(""))
+    })
+}
+
+/// valid documents around and beyond the recursion limit (the `unbounded` exception): (label, text)
+fn deep_docs() -> Vec<(String, String)> {
+    let mut out = Vec::new();
+    for d in [1usize, 40, 78, 79, 80, 81, 100, 127, 128, 129, 200] {
+        out.push((format!("arrays x{}", d), format!("k = {}1{}\n", "[".repeat(d), "]".repeat(d))));
+        out.push((format!("inline tables x{}", d), format!("k = {}1{}\n", "{a = ".repeat(d), "}".repeat(d))));
+        out.push((format!("dotted key x{}", d), format!("{} = 1\n", vec!["a"; d].join("."))));
+        out.push((format!("header path x{}", d), format!("[{}]\nx = 1\n", vec!["a"; d].join("."))));
+        out.push((format!("array-of-tables path x{}", d), format!("[[{}]]\nx = 1\n", vec!["a"; d].join("."))));
+        out.push((format!("dotted key in inline table x{}", d), format!("k = {{ {} = 1 }}\n", vec!["a"; d].join("."))));
+        out.push((format!("mixed array/inline x{}", d), format!("k = {}1{}\n", "[{a = ".repeat(d / 2 + 1), "}]".repeat(d / 2 + 1))));
+    }
+    out
+}
+
 // ---- battery (generated sequentially, identical in every configuration)
 
 const T24: [&str; 24] = ["a", "b", "=", "1", "\n", " ", ".", "[", "]", "\"a\"", "'b'", "{", "}", ",", "0", "-", "_", "e", ":", "true", "inf", "\r\n", "#c", "\"\"\""];
@@ -212,47 +241,73 @@ mod te {
         let mut im = Blocks::new("te.imdocument.tree", dump);
         let mut val = Blocks::new("te.value.verdict", dump);
         for d in docs {
-            match d.parse::<toml_edit::DocumentMut>() {
+            // (verdict, tree, print, sorted print)
+            let r = guard(|| match d.parse::<toml_edit::DocumentMut>() {
                 Ok(mut doc) => {
-                    verdict.item("1");
                     let mut c = String::new();
                     canon_table(doc.as_table(), &mut c);
-                    tree.item(&c);
                     #[cfg(feature = "te_display")]
-                    {
-                        print.item(&doc.to_string());
+                    let (p, sp) = {
+                        let p = doc.to_string();
                         doc.as_table_mut().sort_values();
                         for (_, it) in doc.as_table_mut().iter_mut() {
                             if let Some(t) = it.as_table_like_mut() {
                                 t.sort_values();
                             }
                         }
-                        sorted.item(&doc.to_string());
-                    }
+                        (p, doc.to_string())
+                    };
+                    #[cfg(not(feature = "te_display"))]
+                    let (p, sp) = (String::new(), String::new());
+                    ("1".to_string(), c, p, sp)
                 }
-                Err(_) => {
-                    verdict.item("0");
-                    tree.item("-");
-                    #[cfg(feature = "te_display")]
-                    {
-                        print.item("-");
-                        sorted.item("-");
-                    }
+                Err(e) => {
+                    // the error value must be usable in every configuration
+                    let _ = (e.message().len(), e.span(), format!("{:?}", e).len());
+                    ("0".to_string(), "-".to_string(), "-".to_string(), "-".to_string())
                 }
+            });
+            let (v, t, p, sp) = r.unwrap_or_else(|m| (m.clone(), m.clone(), m.clone(), m));
+            verdict.item(&v);
+            tree.item(&t);
+            #[cfg(feature = "te_display")]
+            {
+                print.item(&p);
+                sorted.item(&sp);
             }
-            match toml_edit::ImDocument::parse(d.as_str()) {
+            let _ = (&p, &sp);
+            let r = guard(|| match toml_edit::ImDocument::parse(d.as_str()) {
                 Ok(doc) => {
                     let mut c = String::new();
                     canon_table(doc.as_table(), &mut c);
-                    im.item(&c);
+                    c
                 }
-                Err(_) => im.item("-"),
-            }
+                Err(_) => "-".to_string(),
+            });
+            im.item(&r.unwrap_or_else(|m| m));
             if d.len() <= 12 {
-                val.item(if d.parse::<toml_edit::Value>().is_ok() { "1" } else { "0" });
-                val.item(if d.parse::<toml_edit::Key>().is_ok() { "1" } else { "0" });
+                val.item(&guard(|| if d.parse::<toml_edit::Value>().is_ok() { "1" } else { "0" }.to_string()).unwrap_or_else(|m| m));
+                val.item(&guard(|| if d.parse::<toml_edit::Key>().is_ok() { "1" } else { "0" }.to_string()).unwrap_or_else(|m| m));
             }
         }
+        // around and beyond the recursion limit: compared between configurations with the same boundedness only
+        let unb = cfg!(feature = "te_unbounded");
+        let mut deep = Blocks::new(if unb { "te.deep.verdict[unbounded]" } else { "te.deep.verdict[bounded]" }, dump);
+        for (label, text) in deep_docs() {
+            let r = guard(|| match text.parse::<toml_edit::DocumentMut>() {
+                Ok(doc) => {
+                    drop(doc);
+                    "1".to_string()
+                }
+                Err(e) => format!("0 {}", e.message().lines().next().unwrap_or("")),
+            })
+            .unwrap_or_else(|m| m);
+            if unb && r != "1" {
+                println!("VIOL unbounded configuration does not accept a valid deeply nested document ({}): {}", label, r);
+            }
+            deep.item(&r);
+        }
+        deep.done();
         verdict.done();
         tree.done();
         #[cfg(feature = "te_display")]
@@ -391,7 +446,21 @@ mod tm {
         #[cfg(feature = "tm_display")]
         let mut print_raw = Blocks::new(if preserve() { "tm.print.raw[insertion]" } else { "tm.print.raw[sorted]" }, dump);
         for d in docs {
-            match toml::from_str::<toml::Table>(d) {
+            let parsed = match guard(|| toml::from_str::<toml::Table>(d).map_err(|e| { let _ = (e.message().len(), e.span(), format!("{:?}", e).len()); })) {
+                Ok(r) => r,
+                Err(m) => {
+                    verdict.item(&m);
+                    sorted.item(&m);
+                    order.item(&m);
+                    #[cfg(feature = "tm_display")]
+                    {
+                        print_sorted.item(&m);
+                        print_raw.item(&m);
+                    }
+                    continue;
+                }
+            };
+            match parsed {
                 Ok(t) => {
                     verdict.item("1");
                     let mut c = String::new();
@@ -433,6 +502,23 @@ mod tm {
                 }
             }
         }
+        let unb = cfg!(feature = "te_unbounded");
+        let mut deep = Blocks::new(if unb { "tm.deep.verdict[unbounded]" } else { "tm.deep.verdict[bounded]" }, dump);
+        for (label, text) in deep_docs() {
+            let r = guard(|| match toml::from_str::<toml::Table>(&text) {
+                Ok(t) => {
+                    drop(t);
+                    "1".to_string()
+                }
+                Err(e) => format!("0 {}", e.message().lines().next().unwrap_or("")),
+            })
+            .unwrap_or_else(|m| m);
+            if unb && r != "1" {
+                println!("VIOL unbounded configuration does not accept a valid deeply nested document through toml::from_str ({}): {}", label, r);
+            }
+            deep.item(&r);
+        }
+        deep.done();
         verdict.done();
         sorted.done();
         order.done();
@@ -500,6 +586,9 @@ mod tm {
                                 canon_table(&back, &mut got, true);
                                 if got != want {
                                     println!("VIOL {} of a toml::Table (insertion order {:?}, kinds {:?}, depth {}) decodes differently: {:?}", name, p, assign, depth, text);
+                                }
+                                if back != t {
+                                    println!("VIOL {} of a toml::Table (insertion order {:?}, kinds {:?}, depth {}) decodes to a table that compares unequal (==) to the one printed: {:?}", name, p, assign, depth, text);
                                 }
                                 let again = match name {
                                     "to_string" => toml::to_string(&back).unwrap_or_default(),
@@ -682,6 +771,7 @@ fn main() {
     if dump.is_none() {
         println!("CONFIG {}", feats.join(","));
     }
+    std::panic::set_hook(Box::new(|_| {}));
     let docs = docs();
     #[cfg(feature = "te_parse")]
     te::parse_kinds(&docs, &dump);
